@@ -56,6 +56,15 @@ def gen_cases(tier, seed):
         for n in (6, 7, 8, 13, 14, 15, 21, 35, 70):
             mk(n, blks=blks, crc=True, srvcrc=True)
             mk(n, blks=blks, crc=False)
+    # the payload handed to the (buffered) file object in several write() calls: pieces small enough
+    # for io.BufferedWriter to keep what the raw stream does not take yet (pieces <= buffer - 7)
+    for n in (30, 100, 889, 890, 2000, 3000):
+        for piece in (1, 3, 13, 100, 700, 1000):
+            if piece >= n:
+                continue
+            for crc in (True, False):
+                mk(n, crc=crc, srvcrc=True, buffering=rng.choice([1024, 8192]),
+                   chunks=[piece] * (n // piece) + ([n % piece] if n % piece else []))
     longs = [888, 889, 890, 1777, 1778, 1779, 2000] + [7 * k + d for k in (100, 254) for d in (-1, 0, 1)]
     longs += [10000] if tier == "quick" else [7 * k + d for k in range(150, 1430, 61) for d in (-1, 0, 1)] + [9999, 10000, 10001]
     for n in longs:
@@ -82,6 +91,15 @@ def gen_cases(tier, seed):
                 for k in range(1, nseg):
                     mk(n, blks=blks, crc=(k % 2 == 0), srvcrc=True, buffering=buf,
                        chunks=[7] * nseg, lose_seg=[k])
+    # a second loss while the first one is being repaired (frames are numbered as sent)
+    for n in (100, 700):
+        for b in (3, 8):
+            for a in range(1, b + 1):
+                for second in range(b + 1, 2 * b + 2):
+                    # (a server that does not compare the committed length with the declared size:
+                    #  CiA 301 leaves that check to the server)
+                    mk(n, blks=[b], crc=(a + second) % 2 == 0, srvcrc=True, buffering=1024, chunks=[n],
+                       lose_seg=[a, second], size_check=(a % 2 == 0))
     # seeded multi-loss, acknowledge loss
     for _ in range(150 if tier == "quick" else 2500):
         n = rng.randrange(8, 300)
